@@ -18,7 +18,7 @@ BIGVAL = 1e30
 
 
 def build(arch: Dict[str, Any], *, fold_bn: bool = False, seed: int = 0, train_mode: bool = False,
-          cost=None, discrete_cost: bool = True, full_cost: bool = False):
+          cost=None, discrete_cost: bool = True, full_cost: bool = False, variant: str = "auto"):
     """float64 GrammarNet + PIT wrapper.  Returns (original net (untouched copy), pit, x)."""
     from plinio.methods import PIT
     arch = norm_arch(arch)
@@ -32,11 +32,63 @@ def build(arch: Dict[str, Any], *, fold_bn: bool = False, seed: int = 0, train_m
     kw = {}
     if cost is not None:
         kw["cost"] = cost
+    excl = exclude_names(arch)
+    if variant == "manual":
+        manual_place(net, arch, fold_bn)
+        kw["autoconvert_layers"] = False
+        excl = []
+    elif variant == "types" and excl:
+        # exclusion by TYPE instead of by name, possible when the excluded layers are exactly the layers of a type
+        kinds = {}
+        for i, n in enumerate(arch["nodes"], start=1):
+            if n["op"] in ("conv", "lin") and not n["reuse"]:
+                kinds.setdefault(n["op"], []).append(bool(n["excl"]))
+        types = []
+        if all(kinds.get("lin", [False])) and not any(kinds.get("conv", [False])):
+            types = [nn.Linear]
+        elif all(kinds.get("conv", [False])) and not any(kinds.get("lin", [False])):
+            types = [nn.Conv1d if arch["dim"] == 1 else nn.Conv2d]
+        if types:
+            kw["exclude_types"] = tuple(types)
+            excl = []
     with warnings.catch_warnings():
         warnings.simplefilter("ignore")
-        pit = PIT(net, input_shape=input_shape(arch), fold_bn=fold_bn, exclude_names=exclude_names(arch),
+        pit = PIT(net, input_shape=input_shape(arch), fold_bn=fold_bn, exclude_names=excl,
                   discrete_cost=discrete_cost, full_cost=full_cost, **kw)
     return ref, pit, x
+
+
+def manual_place(net, arch, fold_bn: bool) -> None:
+    """autoconvert off: the USER replaces the layers by PIT layers (one masker per sharing group, frozen for groups
+    tied to the network input / output) and PIT(..., autoconvert_layers=False) only imports them."""
+    from plinio.methods.pit.nn import PITConv1d, PITConv2d, PITLinear
+    from plinio.methods.pit.nn.features_masker import PITFeaturesMasker, PITFrozenFeaturesMasker
+    from plinio.methods.pit.nn.timestep_masker import PITTimestepMasker, PITFrozenTimestepMasker
+    from plinio.methods.pit.nn.dilation_masker import PITDilationMasker, PITFrozenDilationMasker
+    from .pitgen import comp_reps
+    reps = comp_reps(arch, with_frozen=True)
+    sh = shapes(arch)
+    maskers = {}
+    for i, n in enumerate(arch["nodes"], start=1):
+        if n["op"] not in ("conv", "lin") or n["excl"] or n["reuse"]:
+            continue
+        rep, frozen, has_def = reps[i]
+        if rep not in maskers:
+            w = sh[i]["ch"]
+            maskers[rep] = PITFrozenFeaturesMasker(w) if frozen else PITFeaturesMasker(w)
+        fm = maskers[rep]
+        old = net.layers[lname(i)]
+        if isinstance(old, nn.Conv1d):
+            k = old.kernel_size[0]
+            st = old.stride[0]
+            new = PITConv1d(old, out_features_masker=fm,
+                            timestep_masker=PITFrozenTimestepMasker(k) if st != 1 else PITTimestepMasker(k),
+                            dilation_masker=PITFrozenDilationMasker(k) if st != 1 else PITDilationMasker(k), fold_bn=fold_bn)
+        elif isinstance(old, nn.Conv2d):
+            new = PITConv2d(old, out_features_masker=fm, fold_bn=fold_bn)
+        else:
+            new = PITLinear(old, out_features_masker=fm, fold_bn=fold_bn)
+        net.layers[lname(i)] = new
 
 
 def layer(pit, i: int):
